@@ -164,6 +164,20 @@ CLAIMED["C07"] = (
     "TLC/SANY; the structural validator (protobuf classes for field access only; record lengths from the CellRecord layout); tiles written by "
     "Numbers may carry 255 offset slots, the surplus must be unused; Apple Numbers as consumer is out of reach",
     "DESIGN.md §4 C07")
+CLAIMED["C08"] = (
+    "TLC model checking of FormulaStack.tla (program builder, Render, a precedence-climbing Parse, the code's stack machine; Faithful and "
+    "MachineAgrees for every well-formed program within the node bound, mutants refuted); every program TLC reaches materialised as a real "
+    "formula archive, saved, reopened, read through Cell.formula and compared as an expression tree and literal by literal",
+    "FormulaStack.tla builds post-fix node arrays the way Numbers writes them (explicit LIST nodes wherever precedence alone would read the "
+    "text differently) while tracking the expression tree each stack entry denotes; TLC checks Parse(Render(tree)) = tree and that the "
+    "code-shaped string stack machine produces Render(tree), and refutes SwapSub / ArgsReversed / NoParenRule. 2*10^4 (quick) / 4*10^5 "
+    "(thorough) distinct programs over every operator (members of each precedence class substituted), unary minus, percent, lists, calls of "
+    "arity 0..3 with empty arguments, 1-D/2-D arrays and number/string/boolean/date/reference leaves are injected into real tables in batches, "
+    "saved and reopened; the text is read twice (determinism), tokenised and parsed by the harness's projection (same grammar as the spec's "
+    "Parse) and compared with the stored tree, then literal by literal (numbers as decimals, strings with quotes undoubled, dates, references).",
+    "TLC/SANY; the projection parser (validated on the spec's own renderings); leaf values and function ids sampled from seeded pools; "
+    "fixture formulas with named ranges / cross-table references are outside the projection's grammar and only counted",
+    "DESIGN.md §4 C08")
 NOT_YET = "check not built yet in this round (planned: see DESIGN.md section for this property)"
 NA = {}
 
